@@ -442,6 +442,30 @@ func (e *Exec) edgeState(fr *Frame, p, b *ssa.BasicBlock, ps *State) *State {
 
 // ---------- loops ----------
 
+// evalInv evaluates a loop invariant; one written "since call K f" reads old() and before() at that snapshot.
+func (e *Exec) evalInv(fr *Frame, cl Clause, st *State) *Term {
+	if cl.SinceCallee != "" {
+		snap := fr.snaps[fmt.Sprintf("%s:%d", cl.SinceFile, cl.SinceOff)]
+		if snap == nil {
+			e.fail("invariant %s: the 'since' call was not executed before the loop", cl.Label)
+		}
+		fr.oldOverride = snap
+		defer func() { fr.oldOverride = nil }()
+	}
+	return e.evalClauseAt(fr, cl, st, nil)
+}
+
+func (fs *FuncSpec) hasSinceInvariant() bool {
+	for _, ls := range fs.Loops {
+		for _, cl := range ls.Invariants {
+			if cl.SinceCallee != "" {
+				return true
+			}
+		}
+	}
+	return false
+}
+
 func (e *Exec) loopSpec(fr *Frame, li *loopInfo) *LoopSpec {
 	if fr.spec == nil {
 		return nil
@@ -461,7 +485,7 @@ func (e *Exec) enterLoop(fr *Frame, li *loopInfo, pre *State) *State {
 	// establish invariants on entry
 	if ls != nil {
 		for _, cl := range ls.Invariants {
-			t := e.evalClauseAt(fr, cl, pre, nil)
+			t := e.evalInv(fr, cl, pre)
 			e.oblige(pre, "inv-init", fmt.Sprintf("inv-init:%d:%s", li.ordinal, cl.Label), t, cl.Pos)
 		}
 	}
@@ -524,7 +548,7 @@ func (e *Exec) enterLoop(fr *Frame, li *loopInfo, pre *State) *State {
 	}
 	if ls != nil {
 		for _, cl := range ls.Invariants {
-			e.assume(st, e.evalClauseAt(fr, cl, st, nil))
+			e.assume(st, e.evalInv(fr, cl, st))
 		}
 		if ls.Decreases != nil {
 			li.dec0 = e.evalClauseAt(fr, *ls.Decreases, st, nil)
@@ -715,7 +739,7 @@ func (e *Exec) backEdge(fr *Frame, li *loopInfo, from *ssa.BasicBlock, st *State
 		fr.vals[phi] = v
 	}
 	for _, cl := range ls.Invariants {
-		t := e.evalClauseAt(fr, cl, st, nil)
+		t := e.evalInv(fr, cl, st)
 		e.oblige(st, "inv-step", fmt.Sprintf("inv-step:%d:%s", li.ordinal, cl.Label), t, cl.Pos)
 	}
 	if ls.Decreases != nil && li.dec0 != nil {
@@ -1038,12 +1062,22 @@ func (e *Exec) rangeSnapshots(fr *Frame, st *State, ins ssa.Instruction) {
 
 // siteAsserts: contract assertions attached to a return statement (kind 0) or to a call (1 before, 2 after).
 func (e *Exec) siteAsserts(fr *Frame, st *State, pos token.Pos, kind int) {
-	if fr.spec == nil || len(fr.spec.Asserts) == 0 || e.pure > 0 || pos == token.NoPos {
+	if fr.spec == nil || (len(fr.spec.Asserts) == 0 && !fr.spec.hasSinceInvariant()) || e.pure > 0 || pos == token.NoPos {
 		return
 	}
 	pp := e.eng.fset.Position(pos)
 	if kind == 1 {
 		// snapshot points for "since call k f": the state just before that call
+		for _, ls := range fr.spec.Loops {
+			for _, cl := range ls.Invariants {
+				if cl.SinceCallee != "" && cl.SinceFile == pp.Filename && cl.SinceOff == pp.Offset {
+					if fr.snaps == nil {
+						fr.snaps = map[string]*State{}
+					}
+					fr.snaps[fmt.Sprintf("%s:%d", cl.SinceFile, cl.SinceOff)] = st.clone()
+				}
+			}
+		}
 		for _, a := range fr.spec.Asserts {
 			if !a.Dead && a.SinceCallee != "" && a.SinceEnd == 0 && a.SinceFile == pp.Filename && a.SinceOff == pp.Offset {
 				if fr.snaps == nil {
